@@ -3,7 +3,7 @@ from typing import Any, Protocol
 import httpx
 
 from .auth.base import BaseAuth
-from .exceptions import HTTPError
+from .exceptions import ClientError, HTTPError, ServerError
 
 
 class HttpTransport(Protocol):
@@ -191,7 +191,12 @@ class HttpxTransport:
 
         response = await self._client.request(method, url, **request_args)
         if response.status_code < 200 or response.status_code >= 300:
-            raise HTTPError(status_code=response.status_code, message=response.text, response=response)
+            error_cls: type[HTTPError] = HTTPError
+            if 400 <= response.status_code < 500:
+                error_cls = ClientError
+            elif 500 <= response.status_code < 600:
+                error_cls = ServerError
+            raise error_cls(status_code=response.status_code, message=response.text, response=response)
         return response
 
     async def close(self) -> None:
